@@ -19,6 +19,12 @@ type poolImpl struct {
 }
 
 func (my *poolImpl) Send(handler Handler, opts ...TaskOption) Task {
+	return my.send(nil, handler, opts)
+}
+
+// send owner是返回给调用方的Pool对象(wrapper). 任务在完成之前一直持有owner, 这样即使调用方只保留了Task而丢弃了Pool,
+// Pool也不会被finalizer关闭, 已经接收的任务一定会被执行完
+func (my *poolImpl) send(owner any, handler Handler, opts []TaskOption) Task {
 	if handler == nil {
 		panic("handler is nil")
 	}
@@ -34,7 +40,7 @@ func (my *poolImpl) Send(handler Handler, opts ...TaskOption) Task {
 		return newTaskDiscard()
 	}
 
-	var task = newTaskCallback(my, handler, options)
+	var task = newTaskCallback(my, owner, handler, options)
 	verifYield(VerifSiteSendEnqueue)
 	select {
 	case my.taskChan <- task:
